@@ -18,6 +18,7 @@ package sql
 // a logical connective that binds looser in SQL than the enclosing one.
 //@ func compile
 //@   props C20
+//@   modifies all
 //@   uses sql.init types.init val.init
 //@   requires env1 != nil
 //@   requires #parent outerPrec == 0 || outerPrec == oper.BP_LOGIC_OR || outerPrec == oper.BP_LOGIC_AND || outerPrec == oper.BP_PREFIX
